@@ -692,5 +692,455 @@ theorem stmt_printf (f : Nat) (fmt : String) (as : Args) (has : ArgsOK as)
     rw [ht2.1]; simp [Target, List.length_append, Nat.add_assoc]
 
 
+variable {img : Image}
+
+/-- an instruction fetched at an address written differently -/
+macro "idx " h:term : term =>
+  `(by first | exact $h | (rw [← $h]; first | rfl | (congr 1 <;> omega)))
+
+/-- code placed at an address written differently -/
+macro "cat " h:term : term =>
+  `(by first
+      | exact $h
+      | (have hh := $h
+         simp only [List.length_append, List.length_cons, List.length_nil, Nat.add_assoc, Nat.zero_add, Nat.add_zero] at hh ⊢
+         exact hh))
+
+/-! ## blocks, operands -/
+
+def BlockGoal (img : Image) (f : Nat) : Prop :=
+  ∀ b, FragBlock b → ∀ (σ σ' : S) (o : Outcome) (s : State) (pc exit : Nat) (stk : List Frame),
+    Sim stk σ s → s.pc = (pc : Int) → CodeAt img pc (resolve (genBlock b) pc exit) →
+    execBlock f b σ = (o, σ') → (o = .normal ∨ o = .brk) →
+    Exec img s (At (Target pc (genBlock b).length exit o) stk [] σ')
+
+def StmtsGoal (img : Image) (f : Nat) : Prop := ∀ st, FragStmt st → StmtGoal img st f
+
+def OperandGoal (img : Image) (f : Nat) : Prop :=
+  ∀ (k : ActKind) (op : Operand_), FragOperand op →
+  ∀ (σ σ' : S) (o : Outcome) (s : State) (pc exit : Nat) (stk : List Frame),
+    Sim stk σ s → s.pc = (pc : Int) →
+    CodeAt img pc (resolve (genOperand op ++ ins [opcodeOf k]) pc exit) →
+    execOperand f k op σ = (o, σ') → (o = .normal ∨ o = .brk) →
+    Exec img s (At (Target pc ((genOperand op).length + 1) exit o) stk [] σ')
+
+def OperandsGoal (img : Image) (f : Nat) : Prop :=
+  ∀ (k : ActKind) (ops : Operands), FragOperands ops →
+  ∀ (σ σ' : S) (o : Outcome) (s : State) (pc exit : Nat) (stk : List Frame),
+    Sim stk σ s → s.pc = (pc : Int) →
+    CodeAt img pc (resolve (genOperands k ops) pc exit) →
+    execOperands f k ops σ = (o, σ') → (o = .normal ∨ o = .brk) →
+    Exec img s (At (Target pc (genOperands k ops).length exit o) stk [] σ')
+
+theorem block_zero : BlockGoal img 0 := by
+  intro b _ σ σ' o s pc exit stk _ _ _ h ho
+  simp only [execBlock, Prod.mk.injEq] at h
+  rcases ho with rfl | rfl <;> simp at h
+
+theorem block_step (f : Nat) (ihS : StmtsGoal img f) (ihB : BlockGoal img f) : BlockGoal img (f + 1) := by
+  intro b hb σ σ' o s pc exit stk sim hpc hc h ho
+  cases b with
+  | nil =>
+    simp only [execBlock, Prod.mk.injEq] at h
+    obtain ⟨rfl, rfl⟩ := h
+    exact Exec.done ⟨by simpa [genBlock, Target] using hpc, sim⟩
+  | cons st rest =>
+    simp only [execBlock] at h
+    simp only [genBlock, resolve_append] at hc
+    simp only [genBlock, List.length_append]
+    split at h
+    · rename_i σ1 hst
+      have h1 := ihS st hb.1 σ σ1 .normal s pc exit stk sim hpc hc.left hst (Or.inl rfl)
+      refine h1.trans fun t ht => ?_
+      have hcr := hc.right
+      rw [resolve_length] at hcr
+      have h2 := ihB rest hb.2 σ1 σ' o t _ exit stk ht.2 ht.1 hcr h ho
+      refine h2.mono fun t2 ht2 => ?_
+      cases o <;> simpa [Target, Nat.add_assoc] using ht2
+    · rename_i hne
+      cases hst : execStmt f st σ with
+      | mk o1 σ1 =>
+        rw [hst] at h
+        simp only [Prod.mk.injEq] at h
+        obtain ⟨rfl, rfl⟩ := h
+        have hb' : o1 = .brk := by
+          rcases ho with rfl | rfl
+          · exact absurd hst (hne _)
+          · rfl
+        subst hb'
+        have h1 := ihS st hb.1 σ σ1 .brk s pc exit stk sim hpc hc.left hst (Or.inr rfl)
+        exact h1
+
+
+/-- the source-level state after the name of an operand is set -/
+def nameSet (n : NameSpec) (σ : S) : S :=
+  match n with
+  | .str x => σ.setReg .name (.str x)
+  | .var x => σ.setReg .name (σ.lookup x)
+
+theorem exec_nameSet {stk : List Frame} {un : List Val} {σ : S} {s : State} {pc : Nat}
+    (n : NameSpec) (h : SimU stk un σ s) (hpc : s.pc = (pc : Int))
+    (hi : img.code[pc]? = some (genName n)) :
+    Exec img s (At (pc + 1) stk un (nameSet n σ)) := by
+  have := exec_genName n h hpc hi
+  cases n <;> exact this
+
+/-- `light`, `group`, `location` operands: name, operand kind, command -/
+theorem operand_plain (k : ActKind) (n : NameSpec) (w : Operand)
+    (σ σ' : S) (o : Outcome) (s : State) (pc : Nat) (stk : List Frame)
+    (sim : Sim stk σ s) (hpc : s.pc = (pc : Int))
+    (hc : CodeAt img pc ([genName n, .moveq (.operand w) (.reg .operand)] ++ [opcodeOf k]))
+    (h : ((nameSet n σ).setReg .operand (.operand w)).device
+      (if k == .set then State.doColor else State.doPower) = (o, σ'))
+    (ho : o = .normal ∨ o = .brk) :
+    Exec img s (At (pc + 3) stk [] σ') ∧ o = .normal := by
+  have hn := device_outcome h ho
+  subst hn
+  refine ⟨?_, rfl⟩
+  refine (exec_nameSet n sim hpc hc.head).trans fun t ht => ?_
+  refine (exec_moveqReg _ .operand (by decide) ht.2 ht.1 hc.tail.head).trans fun t2 ht2 => ?_
+  exact exec_fire k ht2.2 ht2.1 hc.tail.tail.head h
+
+theorem operand_zone (f : Nat) (k : ActKind) (n : NameSpec) (r : Range) (hr : RangeOK r)
+    (σ σ' : S) (o : Outcome) (s : State) (pc exit : Nat) (stk : List Frame)
+    (sim : Sim stk σ s) (hpc : s.pc = (pc : Int))
+    (hc : CodeAt img pc (resolve (genOperand (.zone n r) ++ ins [opcodeOf k]) pc exit))
+    (h : execOperand (f + 1) k (.zone n r) σ = (o, σ')) (ho : o = .normal ∨ o = .brk) :
+    Exec img s (At (Target pc ((genOperand (.zone n r)).length + 1) exit o) stk [] σ') := by
+  simp only [genOperand, resolve_append, resolve_ins, ins_length] at hc ⊢
+  simp only [execOperand] at h
+  split at h
+  · rename_i o' he
+    simp only [Prod.mk.injEq] at h
+    obtain ⟨rfl, rfl⟩ := h
+    have := evalRange_error hr f _ _ _ _ he
+    rcases ho with rfl | rfl <;> simp at this
+  · rename_i σ1 he
+    have hn := device_outcome h ho
+    subst hn
+    refine (exec_nameSet n sim hpc hc.left.left.left.head).trans fun t ht => ?_
+    refine (exec_range r hr .firstZone .lastZone (by decide) (by decide) ht.2 ht.1
+      hc.left.left.right (show evalRange f r .firstZone .lastZone (nameSet n σ) = .ok σ1 by
+        cases n <;> exact he)).trans fun t2 ht2 => ?_
+    have hc3 := hc.left.right.head
+    have hc4 := hc.right.head
+    simp only [List.length_append, List.length_cons, List.length_nil] at hc3 hc4
+    refine (exec_moveqReg _ .operand (by decide) ht2.2 ht2.1 (idx hc3)).trans fun t3 ht3 => ?_
+    refine (exec_fire k ht3.2 ht3.1 (idx hc4) h).mono fun t4 ht4 => ⟨?_, ht4.2⟩
+    rw [ht4.1]; simp [Target, List.length_append]; omega
+
+
+theorem nameSet_str (x : String) (σ : S) : nameSet (.str x) σ = σ.setReg .name (.str x) := rfl
+theorem nameSet_var (x : String) (σ : S) : nameSet (.var x) σ = σ.setReg .name (σ.lookup x) := rfl
+
+/-- sequencing in the source semantics: go on only after a normal outcome -/
+def andThen (r : Outcome × S) (K : S → Outcome × S) : Outcome × S :=
+  if r.1 != .normal then (r.1, r.2) else K r.2
+
+theorem andThen_eq (r : Outcome × S) (K : S → Outcome × S) :
+    (match r with
+      | (.normal, s2) => K s2
+      | r => r) = andThen r K := by
+  obtain ⟨o, s⟩ := r
+  cases o <;> simp [andThen]
+
+theorem andThen_device {σ : S} {hd : State → State} {o : Outcome} {σ' : S} {K : S → Outcome × S}
+    (h : andThen (σ.device hd) K = (o, σ')) (ho : o = .normal ∨ o = .brk) :
+    ∃ s1, σ.device hd = (.normal, s1) ∧ K s1 = (o, σ') := by
+  unfold andThen at h
+  cases hdv : σ.device hd with
+  | mk o1 s1 =>
+    rw [hdv] at h
+    by_cases hn : o1 = .normal
+    · subst hn
+      exact ⟨s1, rfl, by simpa using h⟩
+    · have : (o1 != Outcome.normal) = true := by simpa using hn
+      simp only [this, if_true, Prod.mk.injEq] at h
+      obtain ⟨rfl, rfl⟩ := h
+      exact absurd (device_outcome hdv ho) hn
+
+/-- `execOperand` for a matrix operand given inline -/
+theorem execOperand_matrixInline (f : Nat) (k : ActKind) (n : NameSpec) (rows cols : Option Range)
+    (cf : Bool) (σ : S) :
+    execOperand (f + 1) k (.matrixInline n rows cols cf) σ =
+      andThen ((nameSet n σ).device fun vm => execInstr default vm .matrix) fun s1 =>
+          match evalMatrixRanges f rows cols cf (s1.setReg .operand (.operand .matrix)) with
+          | .error o => (o, s1)
+          | .ok s2 =>
+            match s2.device State.doColor with
+            | (.normal, s3) => (s3.setReg .operand (.operand .matrixLight)).device
+                (if k == .set then State.doColor else State.doPower)
+            | r => r := by
+  cases n <;> simp only [execOperand, nameSet] <;> rfl
+
+theorem execOperand_matrixBlock (f : Nat) (k : ActKind) (n : NameSpec) (body : Block) (σ : S) :
+    execOperand (f + 1) k (.matrixBlock n body) σ =
+      andThen ((nameSet n σ).device fun vm => execInstr default vm .matrix) fun s1 =>
+        match execBlock f body s1 with
+        | (.normal, s2) => (s2.setReg .operand (.operand .matrixLight)).device
+            (if k == .set then State.doColor else State.doPower)
+        | r => r := by
+  cases n <;> simp only [execOperand, nameSet] <;> rfl
+
+theorem operand_matrixInline (f : Nat) (k : ActKind) (n : NameSpec) (rows cols : Option Range)
+    (cf : Bool) (hr : ORangeOK rows) (hcl : ORangeOK cols)
+    (σ σ' : S) (o : Outcome) (s : State) (pc exit : Nat) (stk : List Frame)
+    (sim : Sim stk σ s) (hpc : s.pc = (pc : Int))
+    (hc : CodeAt img pc (resolve (genOperand (.matrixInline n rows cols cf) ++ ins [opcodeOf k]) pc exit))
+    (h : execOperand (f + 1) k (.matrixInline n rows cols cf) σ = (o, σ')) (ho : o = .normal ∨ o = .brk) :
+    Exec img s (At (Target pc ((genOperand (.matrixInline n rows cols cf)).length + 1) exit o) stk [] σ') := by
+  simp only [genOperand, resolve_append, resolve_ins, ins_length] at hc ⊢
+  rw [execOperand_matrixInline] at h
+  obtain ⟨s1, hm, h⟩ := andThen_device h ho
+  split at h
+  · rename_i o' he
+    simp only [Prod.mk.injEq] at h
+    obtain ⟨rfl, rfl⟩ := h
+    have := evalMatrixRanges_error hr hcl f cf _ _ he
+    rcases ho with rfl | rfl <;> simp at this
+  · rename_i s2 he
+    rw [andThen_eq] at h
+    obtain ⟨s3, hcol, h⟩ := andThen_device h ho
+    have hn := device_outcome h ho
+    subst hn
+    have hcl1 := hc.left.left.left
+    have hcm := hc.left.left.right
+    have hcr := hc.left.right
+    have hcf := hc.right.head
+    simp only [List.length_append, List.length_cons, List.length_nil] at hcm hcr hcf
+    refine (exec_nameSet n sim hpc hcl1.head).trans fun t ht => ?_
+    refine (exec_matrix ht.2 ht.1 hcl1.tail.head hm).trans fun t1 ht1 => ?_
+    refine (exec_matrixRanges rows cols cf hr hcl ht1.2 ht1.1 (by
+      have : pc + 1 + 1 = pc + (0 + 1 + 1) := by omega
+      rw [this]; exact hcm) he).trans fun t2 ht2 => ?_
+    refine (exec_color ht2.2 ht2.1 (idx hcr.head) hcol).trans fun t3 ht3 => ?_
+    refine (exec_endMatrix ht3.2 ht3.1 (idx hcr.tail.head)).trans fun t4 ht4 => ?_
+    refine (exec_moveqReg _ .operand (by decide) ht4.2 ht4.1 (idx hcr.tail.tail.head)).trans fun t5 ht5 => ?_
+    refine (exec_fire k ht5.2 ht5.1 (idx hcf) h).mono fun t6 ht6 => ⟨?_, ht6.2⟩
+    rw [ht6.1]; simp [Target, List.length_append]; omega
+
+
+theorem andThen_cases {r : Outcome × S} {K : S → Outcome × S} {o : Outcome} {σ' : S}
+    (h : andThen r K = (o, σ')) :
+    (∃ s2, r = (.normal, s2) ∧ K s2 = (o, σ')) ∨ (r = (o, σ') ∧ o ≠ .normal) := by
+  obtain ⟨o1, s1⟩ := r
+  unfold andThen at h
+  by_cases hn : o1 = .normal
+  · subst hn
+    exact Or.inl ⟨s1, rfl, by simpa using h⟩
+  · have : (o1 != Outcome.normal) = true := by simpa using hn
+    simp only [this, if_true, Prod.mk.injEq] at h
+    obtain ⟨rfl, rfl⟩ := h
+    exact Or.inr ⟨rfl, hn⟩
+
+theorem operand_matrixBlock (f : Nat) (ihB : BlockGoal img f) (k : ActKind) (n : NameSpec)
+    (body : Block) (hb : FragBlock body)
+    (σ σ' : S) (o : Outcome) (s : State) (pc exit : Nat) (stk : List Frame)
+    (sim : Sim stk σ s) (hpc : s.pc = (pc : Int))
+    (hc : CodeAt img pc (resolve (genOperand (.matrixBlock n body) ++ ins [opcodeOf k]) pc exit))
+    (h : execOperand (f + 1) k (.matrixBlock n body) σ = (o, σ')) (ho : o = .normal ∨ o = .brk) :
+    Exec img s (At (Target pc ((genOperand (.matrixBlock n body)).length + 1) exit o) stk [] σ') := by
+  simp only [genOperand, resolve_append, resolve_ins, ins_length] at hc ⊢
+  rw [execOperand_matrixBlock] at h
+  obtain ⟨s1, hm, h⟩ := andThen_device h ho
+  rw [andThen_eq] at h
+  have hcl1 := hc.left.left.left
+  have hcb := hc.left.left.right
+  have hcr := hc.left.right
+  have hcf := hc.right.head
+  simp only [List.length_append, List.length_cons, List.length_nil, resolve_length] at hcb hcr hcf
+  refine (exec_nameSet n sim hpc hcl1.head).trans fun t ht => ?_
+  refine (exec_matrix ht.2 ht.1 hcl1.tail.head hm).trans fun t1 ht1 => ?_
+  have e : pc + 1 + 1 = pc + (0 + 1 + 1) := by omega
+  rw [e] at ht1
+  rcases andThen_cases h with ⟨s2, hbody, hfire⟩ | ⟨hbody, hne⟩
+  · have hn := device_outcome hfire ho
+    subst hn
+    refine (ihB body hb s1 s2 .normal t1 _ exit stk ht1.2 ht1.1 hcb hbody (Or.inl rfl)).trans
+      fun t2 ht2 => ?_
+    simp only [Target] at ht2
+    refine (exec_endMatrix ht2.2 ht2.1 (idx hcr.head)).trans fun t3 ht3 => ?_
+    refine (exec_moveqReg _ .operand (by decide) ht3.2 ht3.1 (idx hcr.tail.head)).trans fun t4 ht4 => ?_
+    refine (exec_fire k ht4.2 ht4.1 (idx hcf) hfire).mono fun t5 ht5 => ⟨?_, ht5.2⟩
+    rw [ht5.1]; simp [Target, List.length_append]; omega
+  · have hb' : o = .brk := by
+      rcases ho with rfl | rfl
+      · exact absurd rfl hne
+      · rfl
+    subst hb'
+    exact ihB body hb s1 σ' .brk t1 _ exit stk ht1.2 ht1.1 hcb hbody (Or.inr rfl)
+
+
+theorem operand_zero : OperandGoal img 0 := by
+  intro k op _ σ σ' o s pc exit stk _ _ _ h ho
+  simp only [execOperand, Prod.mk.injEq] at h
+  rcases ho with rfl | rfl <;> simp at h
+
+theorem operand_step (f : Nat) (ihB : BlockGoal img f) : OperandGoal img (f + 1) := by
+  intro k op hop σ σ' o s pc exit stk sim hpc hc h ho
+  cases op with
+  | light n =>
+    simp only [genOperand, resolve_append, resolve_ins, ins_length] at hc ⊢
+    have h' : ((nameSet n σ).setReg .operand (.operand .light)).device
+        (if k == .set then State.doColor else State.doPower) = (o, σ') := by
+      cases n <;> (simp only [execOperand] at h; exact h)
+    obtain ⟨hex, rfl⟩ := operand_plain k n .light σ σ' o s pc stk sim hpc hc h' ho
+    exact hex
+  | group n =>
+    simp only [genOperand, resolve_append, resolve_ins, ins_length] at hc ⊢
+    have h' : ((nameSet n σ).setReg .operand (.operand .group)).device
+        (if k == .set then State.doColor else State.doPower) = (o, σ') := by
+      cases n <;> (simp only [execOperand] at h; exact h)
+    obtain ⟨hex, rfl⟩ := operand_plain k n .group σ σ' o s pc stk sim hpc hc h' ho
+    exact hex
+  | location n =>
+    simp only [genOperand, resolve_append, resolve_ins, ins_length] at hc ⊢
+    have h' : ((nameSet n σ).setReg .operand (.operand .location)).device
+        (if k == .set then State.doColor else State.doPower) = (o, σ') := by
+      cases n <;> (simp only [execOperand] at h; exact h)
+    obtain ⟨hex, rfl⟩ := operand_plain k n .location σ σ' o s pc stk sim hpc hc h' ho
+    exact hex
+  | zone n r => exact operand_zone f k n r hop σ σ' o s pc exit stk sim hpc hc h ho
+  | matrixInline n rows cols cf =>
+    exact operand_matrixInline f k n rows cols cf hop.1 hop.2 σ σ' o s pc exit stk sim hpc hc h ho
+  | matrixBlock n body =>
+    exact operand_matrixBlock f ihB k n body hop σ σ' o s pc exit stk sim hpc hc h ho
+
+theorem operands_zero : OperandsGoal img 0 := by
+  intro k op _ σ σ' o s pc exit stk _ _ _ h ho
+  simp only [execOperands, Prod.mk.injEq] at h
+  rcases ho with rfl | rfl <;> simp at h
+
+theorem operands_step (f : Nat) (ihO : OperandGoal img f) (ihOs : OperandsGoal img f) :
+    OperandsGoal img (f + 1) := by
+  intro k ops hops σ σ' o s pc exit stk sim hpc hc h ho
+  cases ops with
+  | nil =>
+    simp only [execOperands, Prod.mk.injEq] at h
+    obtain ⟨rfl, rfl⟩ := h
+    exact Exec.done ⟨by simpa [genOperands, Target] using hpc, sim⟩
+  | cons op rest =>
+    simp only [execOperands] at h
+    have h : andThen (execOperand f k op σ) (fun s' => execOperands f k rest s') = (o, σ') := by
+      rw [← andThen_eq]; exact h
+    have hc' : CodeAt img pc (resolve (genOperand op ++ ins [opcodeOf k]) pc exit ++
+        resolve (genOperands k rest) (pc + ((genOperand op).length + 1)) exit) := by
+      have := hc
+      simp only [genOperands, resolve_append, List.length_append, ins_length, List.length_cons,
+        List.length_nil] at this ⊢
+      exact this
+    simp only [genOperands, List.length_append, ins_length, List.length_cons, List.length_nil]
+    rcases andThen_cases h with ⟨σ1, hop, hrest⟩ | ⟨hop, hne⟩
+    · refine (ihO k op hops.1 σ σ1 .normal s pc exit stk sim hpc hc'.left hop (Or.inl rfl)).trans
+        fun t ht => ?_
+      simp only [Target] at ht
+      have hcr := hc'.right
+      simp only [resolve_length, List.length_append, ins_length, List.length_cons, List.length_nil] at hcr
+      refine (ihOs k rest hops.2 σ1 σ' o t _ exit stk ht.2 ht.1 hcr hrest ho).mono fun t2 ht2 => ?_
+      cases o <;> simpa [Target, Nat.add_assoc] using ht2
+    · have hb' : o = .brk := by
+        rcases ho with rfl | rfl
+        · exact absurd rfl hne
+        · rfl
+      subst hb'
+      exact ihO k op hops.1 σ σ' .brk s pc exit stk sim hpc hc'.left hop (Or.inr rfl)
+
+theorem stmt_action (f : Nat) (ihOs : OperandsGoal img f) (k : ActKind) (ops : Operands)
+    (hops : FragOperands ops) : StmtGoal img (.action k ops) (f + 1) := by
+  intro σ σ' o s pc exit stk sim hpc hc h ho
+  simp only [execStmt] at h
+  have h' : andThen ((powerSet k σ).device fun vm => execInstr default vm .wait)
+      (fun s2 => execOperands f k ops s2) = (o, σ') := by
+    rw [← andThen_eq]
+    cases k <;> exact h
+  obtain ⟨σ2, hw, hrest⟩ := andThen_device h' ho
+  have hc' : CodeAt img pc (powerCode k ++ [Instr.wait] ++
+      resolve (genOperands k ops) (pc + ((powerCode k).length + 1)) exit) := by
+    have := hc
+    simp only [genStmt, resolve_append, resolve_ins, ins_length, List.length_append, List.length_cons,
+      List.length_nil] at this
+    cases k <;> exact this
+  suffices hgoal : Exec img s (At (Target pc ((powerCode k).length + 1 + (genOperands k ops).length)
+      exit o) stk [] σ') by
+    simp only [genStmt, List.length_append, ins_length, List.length_cons, List.length_nil]
+    cases k <;> exact hgoal
+  refine (exec_powerSet k sim hpc hc'.left.left).trans fun t ht => ?_
+  refine (exec_wait ht.2 ht.1 hc'.left.right.head hw).trans fun t2 ht2 => ?_
+  have hcr := hc'.right
+  simp only [List.length_append, List.length_cons, List.length_nil] at hcr
+  refine (ihOs k ops hops σ2 σ' o t2 _ exit stk ht2.2 (by rw [ht2.1]; congr 1) hcr hrest ho).mono
+    fun t3 ht3 => ?_
+  cases o <;> simpa [Target, Nat.add_assoc] using ht3
+
+
+/-! ## `if` -/
+
+theorem stmt_ite_none (f : Nat) (ihB : BlockGoal img f) (c : Rv) (hcnd : RvOK c) (t : Block)
+    (ht : FragBlock t) : StmtGoal img (.ite c t none) (f + 1) := by
+  intro σ σ' o s pc exit stk sim hpc hc h ho
+  simp only [genStmt, genIf, resolve_append, resolve_ins, ins_length, resolve, List.length_append,
+    List.length_cons, List.length_nil] at hc ⊢
+  simp only [execStmt] at h
+  split at h
+  · rename_i o' hev
+    simp only [Prod.mk.injEq] at h
+    obtain ⟨rfl, rfl⟩ := h
+    exact (error_excluded hcnd hev ho).elim
+  · rename_i x σ1 hev
+    obtain ⟨rfl, hex⟩ := exec_toResult c hcnd sim hpc hc.left.left hev
+    refine hex.trans fun t0 ⟨ht0, hres⟩ => ?_
+    have hj := hc.left.right.head
+    by_cases hx : x.truthy = true
+    · simp only [hx, if_true] at h
+      refine (exec_jump .ifFalse _ (pc + (genRv c (.to result)).length + 1) (by simp) ht0.2 ht0.1 hj
+        (by simp [hres, hx])).trans fun t1 ht1 => ?_
+      refine (ihB t ht σ1 σ' o t1 _ exit stk ht1.2 ht1.1 (cat hc.right) h ho).mono fun t2 ht2 => ?_
+      cases o <;> simpa [Target, Nat.add_assoc] using ht2
+    · simp only [hx, Bool.false_eq_true, if_false, Prod.mk.injEq] at h
+      obtain ⟨rfl, rfl⟩ := h
+      refine (exec_jump .ifFalse _ (pc + ((genRv c (.to result)).length + 1 + (genBlock t).length))
+        (by simp) ht0.2 ht0.1 hj (by simp [hres, hx]; omega)).mono fun t1 ht1 => ?_
+      simpa [Target] using ht1
+
+theorem stmt_ite_some (f : Nat) (ihB : BlockGoal img f) (c : Rv) (hcnd : RvOK c) (t e : Block)
+    (ht : FragBlock t) (he : FragBlock e) : StmtGoal img (.ite c t (some e)) (f + 1) := by
+  intro σ σ' o s pc exit stk sim hpc hc h ho
+  simp only [genStmt, genIf, resolve_append, resolve_ins, ins_length, resolve, List.length_append,
+    List.length_cons, List.length_nil] at hc ⊢
+  simp only [execStmt] at h
+  split at h
+  · rename_i o' hev
+    simp only [Prod.mk.injEq] at h
+    obtain ⟨rfl, rfl⟩ := h
+    exact (error_excluded hcnd hev ho).elim
+  · rename_i x σ1 hev
+    obtain ⟨rfl, hex⟩ := exec_toResult c hcnd sim hpc hc.left.left.left.left hev
+    refine hex.trans fun t0 ⟨ht0, hres⟩ => ?_
+    have hj := hc.left.left.left.right.head
+    have hct := hc.left.left.right
+    have hj2 := hc.left.right.head
+    have hce := hc.right
+    simp only [resolve_length, List.length_append, List.length_cons, List.length_nil] at hct hj2 hce
+    by_cases hx : x.truthy = true
+    · simp only [hx, if_true] at h
+      refine (exec_jump .ifFalse _ (pc + (genRv c (.to result)).length + 1) (by simp) ht0.2 ht0.1 hj
+        (by simp [hres, hx])).trans fun t1 ht1 => ?_
+      rcases ho with rfl | rfl
+      · refine (ihB t ht σ1 σ' .normal t1 _ exit stk ht1.2 ht1.1 (cat hct) h (Or.inl rfl)).trans
+          fun t2 ht2 => ?_
+        simp only [Target] at ht2
+        refine (exec_jump .always _ (pc + ((genRv c (.to result)).length + 1 + (genBlock t).length + 1 +
+          (genBlock e).length)) (by simp) ht2.2 ht2.1 (idx hj2) (by simp; omega)).mono fun t3 ht3 => ?_
+        simpa [Target] using ht3
+      · refine (ihB t ht σ1 σ' .brk t1 _ exit stk ht1.2 ht1.1 (cat hct) h (Or.inr rfl)).mono
+          fun t2 ht2 => ?_
+        simpa [Target] using ht2
+    · simp only [hx, Bool.false_eq_true, if_false] at h
+      refine (exec_jump .ifFalse _ (pc + ((genRv c (.to result)).length + 1 + (genBlock t).length + 1))
+        (by simp) ht0.2 ht0.1 hj (by simp [hres, hx]; omega)).trans fun t1 ht1 => ?_
+      refine (ihB e he σ1 σ' o t1 _ exit stk ht1.2 ht1.1 (cat hce) h ho).mono fun t2 ht2 => ?_
+      cases o <;> simpa [Target, Nat.add_assoc] using ht2
+
+
 end Sim
 end Bardolph
